@@ -180,7 +180,8 @@ inductive Ty where
   | semverT (orig : Bytes) (rs : List ARange)   -- `SemVer[range]`: the string the range was parsed from, and the parsed ranges
   | hash (k v : Ty) (lo hi : Int)               -- `Hash[K, V, lo, hi]`
   | like (base : Ty) (nav : Bytes)              -- `Like[T, 'navigation']`
-  | callable (has : Bool) (ts : List Ty)        -- `Callable` (`has = false`) / `Callable[T1, …, Tn]` (no block, no return type)
+  -- `NewCallableType(params, return, block)`: each part present or absent (`has… = false`: the type beside it is ignored)
+  | callable (has : Bool) (ts : List Ty) (hasR : Bool) (ret : Ty) (hasB : Bool) (blk : Ty)
   | runtime (rt name : Bytes) (pat : Option Bytes)   -- `Runtime['rt', 'name', Regexp[/pat/]]`
   | struct (es : List (Bytes × Bool × Ty))      -- `Struct[{…}]`: per member its name, "the key is Optional[name]", the value type
   deriving Inhabited
@@ -211,7 +212,7 @@ def Ty.name : Ty → Bytes
   | .tref _ => [0x54, 0x79, 0x70, 0x65, 0x52, 0x65, 0x66, 0x65, 0x72, 0x65, 0x6e, 0x63, 0x65]
   | .semverT _ _ => [0x53, 0x65, 0x6d, 0x56, 0x65, 0x72]
   | .hash _ _ _ _ => [0x48, 0x61, 0x73, 0x68] | .like _ _ => [0x4c, 0x69, 0x6b, 0x65]
-  | .callable _ _ => [0x43, 0x61, 0x6c, 0x6c, 0x61, 0x62, 0x6c, 0x65]
+  | .callable _ _ _ _ _ _ => [0x43, 0x61, 0x6c, 0x6c, 0x61, 0x62, 0x6c, 0x65]
   | .runtime _ _ _ => [0x52, 0x75, 0x6e, 0x74, 0x69, 0x6d, 0x65]
   | .struct _ => [0x53, 0x74, 0x72, 0x75, 0x63, 0x74]
 
@@ -338,10 +339,10 @@ def tyKey : Ty → Bytes
   | .like b n => [1, 0x74] ++ ekStr (Ty.like b n).name ++ (if b.isAny ∧ n.isEmpty then [] else frame (tyKey b) ++ ekStr n)
   -- `CallableType.ToKey` (/repo fix a044786): the three parts `Equals` compares — parameter Tuple (through `TupleType.ToKey`),
   -- return type, block type — an absent one as undef (the model has neither a return nor a block type)
-  | .callable h ts => [1, 0x74] ++ ekStr (Ty.callable h ts).name ++
+  | .callable h ts hr r hb b => [1, 0x74] ++ ekStr [0x43, 0x61, 0x6c, 0x6c, 0x61, 0x62, 0x6c, 0x65] ++
       (frame (if h then [1, 0x74] ++ ekStr [0x54, 0x75, 0x70, 0x6c, 0x65] ++ tyKeys ts ++ sizeParams ts.length ts.length
               else undefKey) ++
-       (frame undefKey ++ frame undefKey))
+       (frame (if hr then tyKey r else undefKey) ++ frame (if hb then tyKey b else undefKey)))
   -- `RuntimeType.Parameters()` (/repo fixes 1cd0d3f, f14f4ca): nothing for the default only; else the runtime, the name unless
   -- it is empty AND no pattern follows, the pattern (a Regexp type) if there is one
   -- `StructType.Parameters()` is ONE hash; `appendTypeParamKey` (/repo fix 61b915c) writes byte 2, the number of entries, then
@@ -405,7 +406,11 @@ def tyEq : Ty → Ty → Bool
   | .like t n, b => match b with | .like t' n' => n == n' && tyEq t t' | _ => false
   -- `CallableType.Equals` (/repo fix 3d635fb): the parameter Tuples are both absent, or Equal (here: no explicit size, so the
   -- same number of members, pairwise Equal)
-  | .callable h ts, b => match b with | .callable h' us => h == h' && (!h || (ts.length == us.length && tyEqL ts us)) | _ => false
+  | .callable h ts hr r hb bl, b =>
+      match b with
+      | .callable h' us hr' r' hb' bl' =>
+        (h == h' && (!h || (ts.length == us.length && tyEqL ts us))) && ((hr == hr' && (!hr || tyEq r r')) && (hb == hb' && (!hb || tyEq bl bl')))
+      | _ => false
   | .runtime rt n p, b => match b with | .runtime rt' n' p' => rt == rt' && n == n' && p == p' | _ => false
   | .struct es, b => match b with | .struct fs => es.length == fs.length && tyEqS es fs | _ => false
 termination_by structural a => a
@@ -446,7 +451,11 @@ def tyEqR : Ty → Ty → Bool
   | .semverT _ rs, b => match b with | .semverT _ rs' => rangesEq rs' rs | _ => false
   | .hash k v lo hi, b => match b with | .hash k' v' lo' hi' => (lo' == lo && hi' == hi) && tyEqR k k' && tyEqR v v' | _ => false
   | .like t n, b => match b with | .like t' n' => n' == n && tyEqR t t' | _ => false
-  | .callable h ts, b => match b with | .callable h' us => h' == h && (!h || (us.length == ts.length && tyEqRL ts us)) | _ => false
+  | .callable h ts hr r hb bl, b =>
+      match b with
+      | .callable h' us hr' r' hb' bl' =>
+        (h' == h && (!h || (us.length == ts.length && tyEqRL ts us))) && ((hr' == hr && (!hr || tyEqR r r')) && (hb' == hb && (!hb || tyEqR bl bl')))
+      | _ => false
   | .runtime rt n p, b => match b with | .runtime rt' n' p' => rt' == rt && n' == n && p' == p | _ => false
   | .struct es, b => match b with | .struct fs => fs.length == es.length && tyEqRS es fs | _ => false
 termination_by structural a => a
